@@ -508,3 +508,23 @@ Inductive reach_wo (U : list tid) : wstate -> list wev -> Prop :=
     reach_wo U s tr -> In t U -> gen_w_step t c s = Ok (s', evs) -> reach_wo U s' (tr ++ evs).
 
 Definition gen_w_run_ops := w_run_ops gen_enter gen_exit gen_pop_first.
+
+(* A callback that re-arms its node (calls await_barrier(node) on the node it was invoked for, from
+   inside run()): once its callback has started the node belongs to the user again, so this is a new
+   registration.  run() read the counter before its loop and the new target is counter + 2, so the loop
+   stops in front of the re-armed node: the call has the effect of run() followed by await_barrier of
+   the re-armed nodes, in the order in which they were called back (compared with the implementation
+   state by state and, per node, event by event, by the lock-step harness: "ab t n rearm"). *)
+Definition fired_nodes (evs : list wev) : list nid :=
+  flat_map (fun e => match e with WCb n _ => [n] | _ => [] end) evs.
+
+Fixpoint w_rearm (step : tid -> call -> wstate -> outcome (wstate * list wev)) (t : tid) (ns : list nid)
+    (s : wstate) (acc : list wev) : outcome (wstate * list wev) :=
+  match ns with
+  | [] => Ok (s, acc)
+  | n :: r => bind (step t (CAwait n) s) (fun '(s1, e1) => w_rearm step t r s1 (acc ++ e1))
+  end.
+
+(* run() of agent t where the callbacks of the nodes with [flag n] re-arm their node *)
+Definition gen_w_run_rearm (t : tid) (flag : nid -> bool) (s : wstate) : outcome (wstate * list wev) :=
+  bind (gen_w_step t CRun s) (fun '(s1, e1) => w_rearm gen_w_step t (filter flag (fired_nodes e1)) s1 e1).
